@@ -600,7 +600,7 @@ func (env *SpecEnv) call(x *SExpr) Value {
 		if x.Args[1].Kind != "str" {
 			env.fail(x, "typeis(x, \"type key\")")
 		}
-		return boolVal(mkEq(dynType(t), mkApp("type!"+x.Args[1].Str, SInt)))
+		return boolVal(mkAnd(mkNe(t, tZero), mkEq(dynType(t), mkApp("type!"+x.Args[1].Str, SInt))))
 	case "cast":
 		// cast(x, "pkg.Type"): view the reference x as a *pkg.Type (meaningful under typeis)
 		if len(x.Args) != 2 || x.Args[1].Kind != "str" {
@@ -611,6 +611,12 @@ func (env *SpecEnv) call(x *SExpr) Value {
 			env.fail(x, "unknown type "+x.Args[1].Str)
 		}
 		return Scalar{env.evalInt(x.Args[0]), types.NewPointer(t)}
+	case "ofield":
+		// ofield(x, "pkg.Type.Field.$leaf"): leaf of an exported field of a library struct (see evalSelector)
+		if len(x.Args) != 2 || x.Args[1].Kind != "str" {
+			env.fail(x, "ofield(x, \"pkg.Type.Field[.$leaf]\")")
+		}
+		return mathInt(mkApp("ofield!"+x.Args[1].Str, SInt, env.evalInt(x.Args[0])))
 	case "unboxstr":
 		return Scalar{mkApp("unbox!str", SStr, env.evalInt(x.Args[0])), tyString}
 	case "unboxint":
